@@ -227,6 +227,19 @@ pub fn my_cmp(a: &FieldValue, b: &FieldValue) -> Option<std::cmp::Ordering> {
         (FieldValue::String(x), FieldValue::String(y)) => Some(x.as_bytes().cmp(y.as_bytes())),
         (FieldValue::Float64(x), FieldValue::Float64(y)) => x.partial_cmp(y),
         (FieldValue::Boolean(x), FieldValue::Boolean(y)) => Some(x.cmp(y)),
+        // lists order lexicographically (Values!TotalLess): first differing element decides, a proper prefix is smaller
+        (FieldValue::List(x), FieldValue::List(y)) => {
+            for (p, q) in x.iter().zip(y.iter()) {
+                match (p, q) {
+                    (FieldValue::Null, FieldValue::Null) => continue,
+                    (FieldValue::Null, _) => return Some(std::cmp::Ordering::Less),
+                    (_, FieldValue::Null) => return Some(std::cmp::Ordering::Greater),
+                    _ => {}
+                }
+                match my_cmp(p, q)? { std::cmp::Ordering::Equal => continue, o => return Some(o) }
+            }
+            Some(x.len().cmp(&y.len()))
+        }
         _ => None,
     }
 }
